@@ -158,6 +158,12 @@ func (c *config) rewrite(node ast.Node) (ast.Node, error) {
 			if c.isExcluded(tags) {
 				tag.Name = "-"
 			} else {
+				if len(f.Names) > 1 {
+					// `A, B int` is two fields sharing one tag. plenc needs a
+					// different index for each.
+					recordError(f, fmt.Errorf("fields %s, ... are declared together so cannot be given unique plenc tags. Declare them separately", f.Names[0].Name))
+					continue
+				}
 				maxPlenc++
 				tag.Name = strconv.Itoa(maxPlenc)
 
